@@ -176,3 +176,67 @@ class TraitNew(TraitMethod):
 
     def covers(self, cx, ov, info):
         return [("constructs", lambda r, s: r != NULL), ("rejects", lambda r, s: r == NULL)]
+
+
+@register
+class TraitSetstate(CContract):
+    """_trait_setstate(trait, (state,)) -- CTrait.__setstate__.
+
+    C14 'a trait definition survives a pickle round trip behaving as before': for a state tuple as produced by
+    _trait_getstate (its five handler slots are table indices, by the contract above) applied to a newly created trait,
+    every handler field is the table entry of its index, every object field is the state's object holding its own
+    reference, and the call is reference neutral.
+    C18, arbitrary tuples: the function must neither read outside the handler tables nor leave the trait holding
+    references it does not own, whatever tuple it is handed."""
+    qualname = "_trait_setstate"
+    properties = ("C14",)
+    extra_properties = ("C18",)
+    side_props = {"valid-deref": ("C18",), "bounds": ("C18",)}
+    own = True
+    overloads = ("state-from-getstate/new-trait", "any-state/any-trait")
+    assumptions = ("A-API", "A-HAVOC", "A-ALLOC", "A-INT", "PyArg_ParseTuple writes its targets in order and gives no rollback on failure")
+
+    def c_setup(self, cx, ex, ov):
+        trait, args = z3.Consts("trait args", Obj)
+        st = CSt().assume(trait != NULL, args != NULL, A.is_inst(args, "PyTuple_Type"))
+        if ov.startswith("state-from-getstate"):
+            for f in ("py_post_setattr", "py_validate", "default_value", "delegate_name", "delegate_prefix", "handler", "obj_dict"):
+                st = st.assume(ex.field_array(st, f)[trait] == NULL)          # trait_new leaves the object fields empty
+        return st, [trait, args], dict(trait=trait, st0=st, ov=ov, witness={},
+                                       concretise=lambda m: dict(harness="cvalidators", family="setstate"))
+
+    def configure(self, cx, ex, ov):
+        if not ov.startswith("state-from-getstate"):
+            return
+        sizes = {"getattr_index": len(front.table("getattr_handlers")), "setattr_index": len(front.table("setattr_handlers")),
+                 "post_setattr_index": len(front.table("setattr_property_handlers")), "validate_index": len(front.table("validate_handlers")),
+                 "delegate_attr_name_index": len(front.table("delegate_attr_name_handlers"))}
+
+        def parse(ex2, args, st, k):
+            """a state written by _trait_getstate: parsing succeeds and the five indices are in range of their tables"""
+            outs = []
+            def kk(r, s):
+                if z3.is_int_value(z3.simplify(r)) and z3.simplify(r).as_long() == 1:
+                    s = s.assume(*[z3.And(0 <= s.env[n], s.env[n] < size) for n, size in sizes.items()])
+                    # no old-pickle shim: the state's validate / post_setattr entries are the objects themselves
+                    for loc in ("py_validate", "py_post_setattr"):
+                        if z3.is_expr(s.env.get(loc)):
+                            s = s.assume(z3.Not(A.is_inst(s.env[loc], "PyLong_Type")))
+                    return k(r, s.gset("parsed_ok", True))
+                return []
+            return A._parse_tuple(ex2.api, args, st, kk)
+        cx.summaries["PyArg_ParseTuple"] = parse
+
+    def c_post(self, cx, ex, ov, info, ret, st):
+        trait = info["trait"]
+        out = [("post:NULL-iff-error-indicator-set", (ret == NULL) == (st.exc != 0))]
+        if st.own is not None:
+            o = z3.Const("o!own", Obj)
+            out.append(("own:every-object-field-holds-a-reference-of-its-own-and-nothing-is-dropped", z3.ForAll([o], st.own[o] == info["own0"][o] + z3.If(
+                z3.And(o == ret, ret != NULL, z3.Not(A.immortal(ret))), 1, 0)), {}, ("C18", "C14")))
+        if ov.startswith("state-from-getstate"):
+            out.append(("post:a-well-formed-state-is-accepted", ret != NULL))
+        return out
+
+    def covers(self, cx, ov, info):
+        return [("restores", lambda r, s: r != NULL)]
